@@ -10,9 +10,9 @@ func init() {
 		Technique:   "schedule-generating property-based testing (rapid + testing/synctest) with handler-side observation and a scripted transport",
 		DesignRef:   "DESIGN.md section 3, C04",
 		Runs: []run{
-			{Test: "TestC04_E2E", Quick: 700, Thorough: 8000},
-			{Test: "TestC04_Stall", Quick: 1500, Thorough: 15000},
-			{Test: "TestC04_Nested", Quick: 600, Thorough: 8000},
+			{Test: "TestC04_E2E", Quick: 700, Thorough: 40000},
+			{Test: "TestC04_Stall", Quick: 1500, Thorough: 75000},
+			{Test: "TestC04_Nested", Quick: 600, Thorough: 40000},
 		},
 	})
 }
